@@ -184,6 +184,10 @@ class Ctx:
         env = dict(ENV, GV_SCRATCH=scratch or os.path.join(CACHE, "scratch"), GV_VERIF=VERIF,
                    GV_REPO=os.environ.get("GV_REPO", "/repo"))
         p = subprocess.run(cmd, env=env, stdout=subprocess.PIPE, stderr=subprocess.STDOUT, text=True, timeout=timeout)
+        if p.returncode < 0:
+            # killed by a signal (the OOM killer on a loaded machine): one retry, the kill is recorded
+            self.assumptions.append(f"harness gv {sub} was killed by signal {-p.returncode} once and re-run")
+            p = subprocess.run(cmd, env=env, stdout=subprocess.PIPE, stderr=subprocess.STDOUT, text=True, timeout=timeout)
         if p.returncode != 0:
             self.broken_ties.append((f"harness gv {sub}", p.stdout[-2000:]))
         return p.returncode == 0, p.stdout
